@@ -10,7 +10,8 @@ tie:    (a) after every operation of generated histories the whole problem seen 
 from fractions import Fraction as F
 from . import build, proto, core, gen, translate, solvelib, lpfam, hist, histrun
 
-OBL = [("Qsx.Props.C06", t) for t in ["Qsx.Props.C06.step_total", "Qsx.Props.C06.err_unchanged"]]
+OBL = [("Qsx.Props.C06", t) for t in ["Qsx.Props.C06.step_total", "Qsx.Props.C06.err_unchanged", "Qsx.Props.C06.symtab_history",
+                                      "Qsx.Props.C06.symtab_lookup_history"]]
 
 
 STORE_W = {"addcol": 20, "newcol": 3, "addrow": 25, "addrrow": 8, "newrow": 3, "delrow": 3, "delrows": 3, "delsetrows": 2, "delcol": 3, "delcols": 3,
@@ -239,6 +240,12 @@ def run(pid, tier, seed):
                       {"start": start, "ops_minimized": small, "first_divergence_line": lines[i], "after_op": lines[j], "key": key,
                        "c": cv, "model": mv}, signature={"symptom": "api-differs", "op": opk, "key": key})
     store_tie(exe, rng.fork("storetie"), quick, ev, rep, proto.INF_LINE.split()[1:3])
+    # the symbol table driven directly vs Qsx.Symtab
+    from . import symtie
+    smodel = solvelib.Model(*proto.INF_LINE.split()[1:3])
+    sym_compare = symtie.run(ev, rep, rng.fork("symtie"), exe, smodel, quick)
+    smodel.run()
+    sym_compare()
     for thm, why in pr["failed"]:
         rep.violation("proof obligation no longer checks: %s (%s)" % (thm, why), {"theorem": thm, "why": why, "log": pr["log"][-2000:]},
                       signature={"symptom": "proof", "theorem": thm}, found_input=False)
